@@ -175,4 +175,13 @@ prefixes examined in the compiled code; the set of package-level variables is `f
 theorem fact_key_prefixes_no_spare_capacity :
     Gen.keyPrefixesWithSpareCapacity = [] ∧ Gen.keyPrefixesExamined = 18 := by decide +kernel
 
+/-- no `append` whose first argument is the result of a call, other than the one storage-key constructor whose callee
+returns a fresh slice (`AddressStoragePrefix` itself appends to a prefix without spare capacity, see above): appending to
+a slice handed out by a callee writes into the callee's array when it has spare capacity.  Finding F23: `TransitionDb`
+appended the custom precompile addresses to go-ethereum's package-level `ActivePrecompiles(rules)` (len 9, cap 16) —
+every transaction of every goroutine (block execution, mempool checks, JSON-RPC calls) wrote the same shared array, in
+map iteration order, while others read it to build their warm set -/
+theorem fact_no_append_to_shared_call_result :
+    Gen.censusAppendToCall = [("x/evm/types/key.go", "StateKey", "AddressStoragePrefix")] := by decide +kernel
+
 end Evermint.Facts.Determinism
